@@ -91,8 +91,15 @@ def check_case(cf, specs, mq, mss, col):
     pictures = P.build_pictures(cf, specs, None)
     facts = {"outcome": "checked", "searched": False}
     ld = cf["profile"] == Profiles.low_delay
+    from vpbt.core import CpuTimeout, cpu_limit
+
     try:
-        blob, seq = S.encode(cf, pictures, minimum_qindex=mq, minimum_slice_size_scaler=mss)
+        with cpu_limit(120):
+            blob, seq = S.encode(cf, pictures, minimum_qindex=mq, minimum_slice_size_scaler=mss)
+    except CpuTimeout:
+        col.fail("encoder-no-result-within-120s-cpu", data, "make_sequence/serialisation did not finish within 120 s of CPU time")
+        facts["outcome"] = "failed"
+        return facts
     except UnsatisfiableCodecFeaturesError as e:
         facts["outcome"] = "rejected:" + type(e).__name__
         return facts
